@@ -365,6 +365,30 @@ def pattern(ops: list[Op], category: str) -> str:
     return "->".join(parts)
 
 
+def sort_commuting(ops: list[Op]) -> list[Op]:
+    """Canonical order inside every maximal run of non-load steps whose members commute
+    (fail-next with anything, modify/delete of different names): delete < fail < modify,
+    then by name.  Runs touching one name twice are left as they are."""
+    out: list[Op] = []
+    run: list[Op] = []
+
+    def flush() -> None:
+        names = [o.name for o in run if o.kind != "fail"]
+        if len(names) == len(set(names)):
+            run.sort(key=lambda o: (o.kind, o.name))
+        out.extend(run)
+        run.clear()
+
+    for o in ops:
+        if o.kind == "load":
+            flush()
+            out.append(o)
+        else:
+            run.append(o)
+    flush()
+    return out
+
+
 def simplifications(ops: list[Op]) -> Iterator[list[Op]]:
     """Simplifications of a history, in a fixed order (used after ddmin to reach a
     canonical minimal form): first whole-history ones (all loads sync, no namespaces,
